@@ -20,6 +20,13 @@ Theorem C13_reachable : forall ops, store_ok (fold_left apply_op ops []).
 Proof. exact reachable_ok. Qed.
 Print Assumptions C13_reachable.
 
+(* names_short, used below, holds in every store reached from records whose labels are shorter than 256 bytes (every
+   record built or parsed by simple-dns has labels of at most 63 bytes) *)
+Theorem C13_names_short_reachable : forall ops, (forall o r, In o ops -> op_record o = Some r -> short_labels (rname r)) ->
+  names_short (fold_left apply_op ops []).
+Proof. exact reachable_names_short. Qed.
+Print Assumptions C13_names_short_reachable.
+
 (* soundness: each answer is a registered authoritative record whose owner equals the question name or is a label-wise
    subdomain of it and whose type and class match; the reply carries the query's id and the response flag, asks for unicast
    delivery iff some question did, and has at least one answer *)
